@@ -26,6 +26,7 @@ import (
 type Job struct {
 	ID       int      `json:"id"` // names the progress file
 	Node     int      `json:"node"`
+	Base     BaseConf `json:"base"` // the configuration file the Core is started from (bases.go)
 	Prefix   []Op     `json:"prefix"`
 	PrefKeys []string `json:"prefKeys"` // implementation state key expected after each prefix op
 	StartKey string   `json:"startKey"` // key of the initial state ("" = unknown, first job)
@@ -59,6 +60,7 @@ type JobResult struct {
 	Node         int        `json:"node"`
 	StartKey     string     `json:"startKey"`
 	NodeKey      string     `json:"nodeKey"`
+	BaseNote     string     `json:"baseNote,omitempty"` // a base configuration that does not read back as its reference state
 	Results      []OpResult `json:"results"`
 	Viols        []Viol     `json:"viols"`
 	Cores        int        `json:"cores"` // real Core executions
@@ -79,6 +81,7 @@ type workerState struct {
 	reqs    int
 	expSeq  int
 	expMemo map[string]*expected
+	names   []string // path names read in the current job (pathNames + the extra names of the job's base)
 }
 
 // logTail returns the last warning/error lines of this worker's log (the Core logs to stdout).
@@ -171,9 +174,9 @@ type live struct {
 	dead bool
 }
 
-func (w *workerState) start() (*live, error) {
+func (w *workerState) start(b *BaseConf) (*live, error) {
 	fn := filepath.Join(w.dir, "run.yml")
-	if err := os.WriteFile(fn, initialModel().Render(w.base), 0o644); err != nil {
+	if err := os.WriteFile(fn, b.fileContent(w.base), 0o644); err != nil {
 		return nil, err
 	}
 	p, ok := c12lib.StartCore(fn, 10)
@@ -242,9 +245,9 @@ type obs struct {
 
 func (o *obs) key() string { return hashOf(o.Snap) }
 
-func readEndpoints() []string {
+func readEndpoints(names []string) []string {
 	eps := []string{"/v3/config/global/get", "/v3/config/pathdefaults/get", "/v3/config/paths/list"}
-	for _, n := range pathNames {
+	for _, n := range names {
 		eps = append(eps, "/v3/config/paths/get/"+url.PathEscape(n))
 	}
 	return eps
@@ -271,6 +274,43 @@ func snapOf2(c *conf.Conf) string {
 	return string(b1) + "\n" + string(b2)
 }
 
+// snapSame compares two running configurations (two-line snapshots). Besides what same() ignores, two differences
+// of REPRESENTATION are not differences of configuration: a configuration loaded from a file without a paths
+// section holds a nil map of optional paths, one whose last path was deleted (or that was written "paths: {}") an
+// empty one (encoded null and {}); a path declared with an empty body may be held as a nil entry or as an entry
+// without values (encoded null and {}). The state KEYS are taken on the text as encoded (the search keeps such
+// states apart: what a later edit does with a nil entry is exactly what the file bases are for).
+func snapSame(a, b string) bool {
+	return a == b || canonSnap(a) == canonSnap(b)
+}
+
+func canonSnap(s string) string {
+	lines := strings.SplitN(s, "\n", 2)
+	var v map[string]any
+	d := json.NewDecoder(strings.NewReader(lines[0]))
+	d.UseNumber()
+	if d.Decode(&v) == nil {
+		p, _ := v["paths"].(map[string]any)
+		if p == nil {
+			p = map[string]any{}
+		}
+		for k, e := range p {
+			if e == nil {
+				p[k] = map[string]any{}
+			}
+		}
+		v["paths"] = p
+		out, _ := json.Marshal(normalize(v))
+		lines[0] = string(out)
+	} else {
+		lines[0] = canon([]byte(lines[0]))
+	}
+	if len(lines) > 1 {
+		lines[1] = canon([]byte(lines[1]))
+	}
+	return strings.Join(lines, "\n")
+}
+
 // same compares two JSON texts (or "status body" reads, or two-line snapshots): equal as text, or equal after
 // canonicalization (sorted keys, null = []).
 func same(a, b string) bool {
@@ -295,7 +335,7 @@ func canonText(s string) string {
 func (l *live) observe() *obs {
 	o := &obs{Reads: map[string]string{}}
 	o.Snap = snapOf(l.p.APIConfigSnapshot())
-	for _, ep := range readEndpoints() {
+	for _, ep := range readEndpoints(l.w.names) {
 		o.Reads[ep] = l.get(ep)
 	}
 	return o
@@ -308,13 +348,13 @@ func (l *live) observeAfterFailure(pre *obs) *obs {
 	o := &obs{Reads: map[string]string{}}
 	o.Snap = snapOf(l.p.APIConfigSnapshot())
 	changed := o.Snap != pre.Snap
-	for _, ep := range readEndpoints()[:3] {
+	for _, ep := range readEndpoints(l.w.names)[:3] {
 		o.Reads[ep] = l.get(ep)
 		if o.Reads[ep] != pre.Reads[ep] {
 			changed = true
 		}
 	}
-	for _, ep := range readEndpoints()[3:] {
+	for _, ep := range readEndpoints(l.w.names)[3:] {
 		if changed {
 			o.Reads[ep] = l.get(ep)
 		} else {
@@ -379,7 +419,7 @@ func (w *workerState) expectUncached(m *Model) *expected {
 		pc = 1
 	}
 	e.reads["/v3/config/paths/list"] = "200 " + mj(map[string]any{"itemCount": len(items), "pageCount": pc, "items": items})
-	for _, n := range pathNames {
+	for _, n := range allNames() {
 		ep := "/v3/config/paths/get/" + url.PathEscape(n)
 		if pc, ok := c.Paths[n]; ok {
 			e.reads[ep] = "200 " + mj(pc)
@@ -390,9 +430,10 @@ func (w *workerState) expectUncached(m *Model) *expected {
 	return e
 }
 
+// diffReads compares every read that was taken (got) with the expectation (want has at least those endpoints).
 func diffReads(got, want map[string]string) (string, string) {
 	var eps []string
-	for ep := range want {
+	for ep := range got {
 		eps = append(eps, ep)
 	}
 	sort.Strings(eps)
@@ -519,7 +560,7 @@ func echoSection(f fields, got map[string]any) string {
 }
 
 // echoDiff returns the first read endpoint that does not return the reference state m, "" if all do.
-func echoDiff(m *Model, reads map[string]string) (string, string) {
+func echoDiff(m *Model, reads map[string]string, names []string) (string, string) {
 	ep := "/v3/config/global/get"
 	st, g := parseRead(reads[ep])
 	if st != 200 || g == nil {
@@ -536,7 +577,7 @@ func echoDiff(m *Model, reads map[string]string) (string, string) {
 	if d := echoSection(m.Defaults, defs); d != "" {
 		return ep, d
 	}
-	for _, n := range pathNames {
+	for _, n := range names {
 		ep = "/v3/config/paths/get/" + url.PathEscape(n)
 		st, p := parseRead(reads[ep])
 		f, ok := m.Paths[n]
@@ -588,7 +629,7 @@ func epClass(ep string) string {
 // reach starts a fresh Core and replays the prefix, checking that the implementation goes through the
 // recorded states (determinism discipline: a divergence is a harness error, never a verdict).
 func (w *workerState) reach(job *Job, res *JobResult) (*live, *obs, error) {
-	l, err := w.start()
+	l, err := w.start(&job.Base)
 	if err != nil {
 		return nil, nil, err
 	}
@@ -630,6 +671,7 @@ func (w *workerState) reach(job *Job, res *JobResult) (*live, *obs, error) {
 
 func (w *workerState) run(job *Job) *JobResult {
 	res := &JobResult{Node: job.Node}
+	w.names = job.Base.names()
 	defer func() {
 		res.Cores = w.cores
 		res.Requests = w.reqs
@@ -642,6 +684,26 @@ func (w *workerState) run(job *Job) *JobResult {
 	}
 	res.NodeKey = pre.key()
 	nodeObs := pre
+	where := ""
+	if !job.Base.Rendered {
+		where = "base " + job.Base.ID + " (" + strings.TrimSpace(strings.ReplaceAll(job.Base.Text, "\n", "\\n")) + "), "
+		if len(job.Prefix) == 0 {
+			// the loaded file must read back as the reference state written next to its text, or every verdict
+			// that follows would be about the loader (or about this table), not about the edits
+			exp := w.expect(job.Model)
+			if !exp.valid {
+				res.BaseNote = "conf.Load refuses the rendered reference state: " + exp.err
+			} else if ep, d := diffReads(pre.Reads, exp.reads); ep != "" {
+				res.BaseNote = "GET " + ep + ": " + d
+			} else if ep, d := echoDiff(job.Model, pre.Reads, w.names); ep != "" {
+				res.BaseNote = "GET " + ep + ": " + d
+			}
+			if res.BaseNote != "" {
+				l.close()
+				return res
+			}
+		}
+	}
 	// progress file: what the parent needs to attribute a death of this process to one edit (see main.go)
 	progFn := filepath.Join(w.dir, fmt.Sprintf("progress-%d.jsonl", job.ID))
 	prog, _ := os.Create(progFn)
@@ -710,7 +772,7 @@ func (w *workerState) run(job *Job) *JobResult {
 		}
 		or := OpResult{Status: status, Accepted: status == 200}
 		nViolBefore := len(res.Viols)
-		hist := fmt.Sprintf("history %v then %v -> %d %s", job.Prefix, op, status, c12short(body, 160))
+		hist := fmt.Sprintf("%shistory %v then %v -> %d %s", where, job.Prefix, op, status, c12short(body, 160))
 		if !alive {
 			addViol(i, op.Kind+"/core-terminated", "the Core terminated after "+hist, "")
 			or.Class = op.Kind + "|core-terminated"
@@ -772,11 +834,11 @@ func (w *workerState) run(job *Job) *JobResult {
 			if ep, d := diffReads(post.Reads, exp.reads); ep != "" {
 				addViol(i, op.Kind+"/accepted-"+epClass(ep)+"-differs",
 					fmt.Sprintf("after the accepted edit, GET %s does not return the edited configuration: %s", ep, hist), d)
-			} else if !same(post.Snap, exp.snap) {
+			} else if !snapSame(post.Snap, exp.snap) {
 				addViol(i, op.Kind+"/accepted-running-conf-differs",
 					"after the accepted edit, the running configuration is not the edited configuration: "+hist,
-					firstDiff(canonText(post.Snap), canonText(exp.snap)))
-			} else if ep, d := echoDiff(cand, post.Reads); ep != "" {
+					firstDiff(canonSnap(post.Snap), canonSnap(exp.snap)))
+			} else if ep, d := echoDiff(cand, post.Reads, w.names); ep != "" {
 				// the same sentence of the statement judged without conf.Load (which shares the merge code with the
 				// API edits): the fields of the reference state must come back from the reads
 				addViol(i, op.Kind+"/accepted-"+epClass(ep)+"-lacks-edited-field",
@@ -787,9 +849,9 @@ func (w *workerState) run(job *Job) *JobResult {
 			if ep, d := diffReads(post.Reads, pre.Reads); ep != "" {
 				addViol(i, op.Kind+"/rejected-changed-"+epClass(ep),
 					fmt.Sprintf("after the rejected edit, GET %s changed: %s", ep, hist), d)
-			} else if !same(post.Snap, pre.Snap) {
+			} else if !snapSame(post.Snap, pre.Snap) {
 				addViol(i, op.Kind+"/rejected-changed-running-conf",
-					"the rejected edit changed the running configuration: "+hist, firstDiff(canonText(post.Snap), canonText(pre.Snap)))
+					"the rejected edit changed the running configuration: "+hist, firstDiff(canonSnap(post.Snap), canonSnap(pre.Snap)))
 			}
 		}
 		or.Tainted = len(res.Viols) > nViolBefore
@@ -815,6 +877,10 @@ func (w *workerState) run(job *Job) *JobResult {
 			outcome = "rejected-invalid"
 		}
 		or.Class = fmt.Sprintf("%s|%s|%s|%s|%s", op.Kind, op.Name, shape, op.Payload, outcome)
+		if !job.Base.Rendered && len(job.Prefix) == 0 {
+			// the new dimension: the edit applied directly to a configuration loaded from a file text
+			or.Class = "base=" + job.Base.ID + "|" + or.Class
+		}
 		emit(or, nViolBefore)
 
 		switch {
